@@ -152,6 +152,18 @@ def run_live(ctx, queries, n):
         frames_seen += nframes if kind == 'final' else 0
         if scr['other']:
             failures.append({'kind': 'spec', 'what': 'the byte stream contains control sequences outside ESC[2K / ESC[1A / CR / LF', 'payload': {'query': c.query}})
+        if got != want and kind == 'snap':
+            # a busy machine is not a stalled display: the same schedule once more, alone, with 2.5 s of idleness
+            sched2 = list(sched)
+            sched2[cp] = (sched2[cp][0], 2.5)
+            o2 = ptydrive.run_pty(c.query, sched2, h, w, mode=c.omode, checkpoints=(cp,))
+            scr2 = ptydrive.emulate_many([(h, w, o2['snaps'][0])])[0] if o2['snaps'] else None
+            if scr2 is not None:
+                got2 = [norm(l) for l in scr2['lines']]
+                while got2 and got2[-1] == '':
+                    got2.pop()
+                if got2 == want:
+                    continue
         if got != want:
             what = ('once input ended the screen does not show exactly the final table' if kind == 'final'
                     else 'after 0.6 s of idle input the display has not caught up with the rows received so far')
